@@ -1,9 +1,94 @@
-"""C11 part 2: single-value / bulk settings reads through the device model (filled in with mc/devsim.py)."""
+"""C11 part 2: single-value / bulk settings reads through the device model."""
+from __future__ import annotations
+
+from .. import world, refdec
+from ..configs import make_rig
+from ..explore import pmap
+from ..sensor_enum import own_values
+
+CFGS = [dict(name='ET-v2', family='ET', tag='ETU', power=10000, refused=(), battery_mode=2),
+        dict(name='ET-v1', family='ET', tag='ETU', power=10000, refused=('eco_v2', 'peak_shaving'), battery_mode=2),
+        dict(name='ES', family='ES', tag='ESU', power=5000, refused=(), battery_mode=0, firmware=b'1414E'),
+        dict(name='ES-v2', family='ES', tag='ESU', power=5000, refused=(), battery_mode=0, firmware=b'2222E'),
+        dict(name='DT', family='DT', tag='DTU', power=5000, refused=(), battery_mode=0)]
+FILLS = {'all-ffff': lambda a: 0xFFFF, 'all-0000': lambda a: 0, 'all-7fff': lambda a: 0x7FFF, 'all-8000': lambda a: 0x8000,
+         'ramp': lambda a: (a * 257 + 3) & 0xFFFF, 'all-6363': lambda a: 0x6363}
+
+
+def run_case(cfg, fname, group=None):
+    r = make_rig(cfg, fill=FILLS[fname])
+    inv, dev = r.inv, r.dev
+    if r.call(inv.read_device_info)[0] != 'ok':
+        return [], 0
+    if cfg['family'] == 'ES':
+        for i in range(len(dev.settings)):
+            dev.settings[i] = FILLS[fname](i) & 0xFF
+    if group is not None:
+        sid, b = group
+        s = inv._settings[sid]
+        dev.rf.setbytes(s.offset, b + (b'\0' if len(b) % 2 else b''))
+    vio = []
+    n = 0
+    ids = [s.id_ for s in inv.settings()]
+    if cfg['family'] != 'DT':
+        res = r.call(inv.read_settings_data)
+        n += 1
+        if res[0] != 'ok':
+            vio.append((f'settings-data-total/{cfg["family"]}/{res[1] if res[0] == "exc" else res[0]}', f'{fname}: {str(res)[:100]}'))
+        elif list(res[1]) != list(dict.fromkeys(ids)):
+            vio.append((f'settings-data-every-id/{cfg["family"]}', f'{fname}: missing {sorted(set(ids) - set(res[1]))[:4]}'))
+    for sid in ids:
+        if sid == 'time' and cfg['family'] == 'ES':
+            continue
+        res = r.call(inv.read_setting, sid)
+        n += 1
+        if res[0] == 'exc' and res[1] != 'ValueError':
+            vio.append((f'read_setting-only-ValueError/{cfg["family"]}/{res[1]}', f'{fname}: read_setting({sid!r}) raised {res[1:]}'))
+        if res[0] == 'hang':
+            vio.append((f'read_setting-terminates/{cfg["family"]}', sid))
+    return vio, n
+
+
+def job(j):
+    cfg, fname, group = j
+    vio, n = run_case(cfg, fname, group)
+    out = {}
+    for key, cause in vio:
+        out.setdefault(key, []).append(dict(key=key, clause=key.split('/')[0],
+                                            replay=dict(kind='settings', cfg=cfg, fill=fname,
+                                                        group=[group[0], group[1].hex()] if group else None),
+                                            detail=dict(cause=cause)))
+    res = []
+    for key, lst in out.items():
+        lst[0]['n'] = len(lst)
+        res.append(lst[0])
+    return n, res
 
 
 def run_part(tier, seed, rep):
-    return 0
+    jobs = [(c, f, None) for c in CFGS for f in FILLS]
+    # uninterpretable contents of each group setting, one at a time, in an otherwise harmless register file
+    for c in CFGS:
+        r = make_rig(c)
+        r.call(r.inv.read_device_info)
+        for s in r.inv.settings():
+            if refdec.size_of(s) >= 6 and s.offset > 1000:
+                bad = [b for b in own_values(s, False) if refdec.decode(s, b) is refdec.NOVALUE]
+                step = max(1, len(bad) // (24 if tier == 'thorough' else 6))
+                for b in bad[seed % step::step]:
+                    jobs.append((c, 'all-0000', (s.id_, b)))
+    total = 0
+    for n, res in pmap(job, jobs, chunksize=2):
+        total += n
+        rep.add_many(res)
+    return total
 
 
 def replay(r):
-    return dict(violations=[])
+    cfg = r['cfg']
+    cfg['refused'] = tuple(cfg['refused'])
+    if isinstance(cfg.get('firmware'), dict):
+        cfg['firmware'] = bytes.fromhex(cfg['firmware']['hex'])
+    g = (r['group'][0], bytes.fromhex(r['group'][1])) if r.get('group') else None
+    vio, n = run_case(cfg, r['fill'], g)
+    return dict(evaluations=n, violations=vio)
